@@ -331,7 +331,31 @@ func unhex(s string) []byte {
 	return b
 }
 
-func (h *hist) commit() {
+func (h *hist) commit() { h.commitBlock(nil) }
+
+// reprocess rolls the head back and processes the identical block again (same operations, same root): what a node
+// does when it re-processes a block after a rollback. Roots on the chain stay unique; the rolled-back root's
+// waiting-list entries were cancelled/pruned by PruneStateOnRollback before it is committed again.
+func (h *hist) reprocess() {
+	orig := h.w.Head()
+	if orig.Script == nil {
+		h.commit()
+		return
+	}
+	h.rollback()
+	if h.dead {
+		return
+	}
+	if h.blocked() {
+		h.ev("reprocess_identical_block_while_blocked")
+	} else {
+		h.ev("reprocess_identical_block")
+	}
+	h.commitBlock(orig)
+}
+
+// commitBlock commits a new random block, or (orig != nil) the identical block orig again
+func (h *hist) commitBlock(orig *cm.Block) {
 	parent := h.w.Head()
 	if h.stale[string(parent.Root)] && !h.shapeSeen {
 		h.shapeSeen = true
@@ -344,8 +368,15 @@ func (h *hist) commit() {
 	if h.shapeParent != nil && h.c.Rng.Bool() {
 		restore = h.shapeParent
 	}
-	b, err := h.w.Commit(h.c.Rng, false, restore)
-	if err != nil {
+	var b *cm.Block
+	var err error
+	if orig != nil {
+		if b, err = h.w.Recommit(orig); err != nil {
+			h.op("re-process FAILED")
+			h.opFailed("reprocess-identical-block", err)
+			return
+		}
+	} else if b, err = h.w.Commit(h.c.Rng, false, restore); err != nil {
 		h.op("commit FAILED")
 		h.opFailed("commit", err)
 		return
@@ -556,7 +587,11 @@ func runHistory(r *vk.Run, c *vk.Case) {
 				h.commit()
 				break
 			}
-			h.rollback()
+			if rng.Chance(1, 3) {
+				h.reprocess()
+			} else {
+				h.rollback()
+			}
 		case x < 8:
 			if mayBlock && !h.pendingHeld && h.explicit < 2 {
 				env.Tsm.EnterPruningBufferingMode()
@@ -651,7 +686,7 @@ func runHistory(r *vk.Run, c *vk.Case) {
 func main() {
 	_ = logger.SetLogLevel("*:NONE")
 	r := vk.Start("C09")
-	r.Rule("each case is one chain history of 15-60 ops over 6 accounts + a counter account (unique block roots): commit (balance/code/storage write+delete, account removal/re-creation, in-block slot flip-flops; small key/value sets so node hashes recur across blocks), finalize the next block through the real updateStateStorage (pruning queue 0-3), roll back the head (RevertStateToBlock + PruneStateOnRollback), Enter/ExitPruningBufferingMode, real SnapshotState/SetStateCheckpoint of the new final root held at the first traversal read for 1-4 ops. Profiles by case index mod 4: never blocked / blocked but never rolled back while blocked / blocked with rollbacks (explicit) / blocked with rollbacks + real snapshots. A history is non-trivial when at least one prune was executed; distinct = distinct (queue, waiting-list cache, buffer, profile, set of pruning events) signatures.")
+	r.Rule("each case is one chain history of 15-60 ops over 6 accounts + a counter account (unique block roots): commit (balance/code/storage write+delete, account removal/re-creation, in-block slot flip-flops; small key/value sets so node hashes recur across blocks), finalize the next block through the real updateStateStorage (pruning queue 0-3), roll back the head (RevertStateToBlock + PruneStateOnRollback; 1 in 3 rollbacks re-processes the identical block afterwards: same operations, same root), Enter/ExitPruningBufferingMode, real SnapshotState/SetStateCheckpoint of the new final root held at the first traversal read for 1-4 ops. Profiles by case index mod 4: never blocked / blocked but never rolled back while blocked / blocked with rollbacks (explicit) / blocked with rollbacks + real snapshots. A history is non-trivial when at least one prune was executed; distinct = distinct (queue, waiting-list cache, buffer, profile, set of pruning events) signatures.")
 	r.Assume(
 		"the harness's finalize/rollback ordering mirrors CommitBlock->updateState and baseSync.rollBackOneBlock (RevertStateToBlock then PruneStateOnRollback)",
 		"block roots are unique (per-block nonce bump), as in the protocol",
